@@ -82,6 +82,7 @@ func (txn *Txn) rangeWrite(fn func(commitID uint64, chunk commit.Chunk, fill bit
 		verifYield(1, uint64(chunk))
 		lock.Lock(uint(chunk))
 		commitID := commit.Next() // drawn under the latch: IDs of a block follow its apply order
+		verifYield(10, uint64(chunk))
 
 		// Compute the fill and set the last commit ID
 		txn.owner.lock.RLock()
